@@ -700,3 +700,92 @@ Qed.
 Theorem bytes_utf8_ok_refuted : exists tok,    (* 'a\\b' is stored as the 4 characters a \ \ b; the RFC value is a \ b *)
   bytes_utf8_spelling tok = true /\ bytes_text_lit tok = Some [97; 92; 98] /\ bytes_utf8_chars tok = [97; 92; 92; 98].
 Proof. exists [39; 97; 92; 92; 98; 39]. vm_compute. auto. Qed.
+
+(* ---------- decoding inverts the RFC 4648 encoding (the specification accepts every encoder output) ---------- *)
+Lemma triple_induction : forall (P : list N -> Prop),
+  P [] -> (forall a, P [a]) -> (forall a b, P [a; b]) -> (forall a b c r, P r -> P (a :: b :: c :: r)) -> forall s, P s.
+Proof.
+  intros P H0 H1 H2 H3. fix IH 1.
+  intros [|a [|b [|c r]]]; [exact H0 | apply H1 | apply H2 | apply H3; apply IH].
+Qed.
+
+Definition sym_ok (url : bool) (v : N) : bool :=
+  let c := sym (alphabet_of url) v in
+  match index_of c (alphabet_of url) with Some w => w =? v | None => false end
+  && (c <? 128) && negb (c =? 61) && (if url then negb (c =? 43) && negb (c =? 47) else true).
+
+Lemma sym_ok_all : forall url v, v < 64 -> sym_ok url v = true.
+Proof. intros url v H. revert v H. apply (forallb_below (sym_ok url) 64). destruct url; vm_compute; reflexivity. Qed.
+
+Lemma sym_index : forall url v, v < 64 -> index_of (sym (alphabet_of url) v) (alphabet_of url) = Some v.
+Proof.
+  intros url v H. pose proof (sym_ok_all url v H) as Hs. unfold sym_ok in Hs.
+  destruct (index_of (sym (alphabet_of url) v) (alphabet_of url)) as [w|]; [|discriminate].
+  apply andb_prop in Hs. destruct Hs as [Hs _]. apply andb_prop in Hs. destruct Hs as [Hs _].
+  apply andb_prop in Hs. destruct Hs as [Hs _]. apply N.eqb_eq in Hs. congruence.
+Qed.
+
+Lemma groups_encode : forall url bs, wf_bytes bs ->
+  base64_groups (alphabet_of url) (base64_encode (alphabet_of url) bs) = Some bs.
+Proof.
+  intros url. set (A := alphabet_of url).
+  apply (triple_induction (fun bs => wf_bytes bs -> base64_groups A (base64_encode A bs) = Some bs)).
+  - reflexivity.
+  - intros b1 Hw. inversion Hw as [|? ? Hb1 _]; subst. cbn [base64_encode base64_groups]. unfold A.
+    rewrite !sym_index by lia.
+    replace ((b1 mod 4 * 16) mod 16 =? 0) with true by lia. f_equal. f_equal. lia.
+  - intros b1 b2 Hw. inversion Hw as [|? ? Hb1 Hw1]; subst. inversion Hw1 as [|? ? Hb2 _]; subst.
+    cbn [base64_encode base64_groups]. unfold A. rewrite !sym_index by lia.
+    replace ((b2 mod 16 * 4) mod 4 =? 0) with true by lia. f_equal. f_equal; [lia|]. f_equal. lia.
+  - intros b1 b2 b3 r IH Hw. inversion Hw as [|? ? Hb1 Hw1]; subst. inversion Hw1 as [|? ? Hb2 Hw2]; subst.
+    inversion Hw2 as [|? ? Hb3 Hw3]; subst.
+    cbn [base64_encode base64_groups]. unfold A in *. rewrite !sym_index by lia. rewrite (IH Hw3).
+    f_equal. f_equal; [lia|]. f_equal; [lia|]. f_equal. lia.
+Qed.
+
+Definition url_char_ok (c : N) : bool := (c <? 128) && negb (c =? 61) && negb (c =? 43) && negb (c =? 47).
+
+Lemma encode_chars : forall bs, wf_bytes bs -> forallb url_char_ok (base64_encode BASE64URL bs) = true.
+Proof.
+  assert (Hs : forall v, v < 64 -> url_char_ok (sym BASE64URL v) = true).
+  { intros v Hv. pose proof (sym_ok_all true v Hv) as H. unfold sym_ok in H. cbn [alphabet_of] in H.
+    unfold url_char_ok. destruct (index_of (sym BASE64URL v) BASE64URL); [|discriminate]. lia. }
+  apply (triple_induction (fun bs => wf_bytes bs -> forallb url_char_ok (base64_encode BASE64URL bs) = true)).
+  - reflexivity.
+  - intros b1 Hw. inversion Hw as [|? ? Hb1 _]; subst. cbn [base64_encode forallb]. rewrite !Hs by lia. reflexivity.
+  - intros b1 b2 Hw. inversion Hw as [|? ? Hb1 Hw1]; subst. inversion Hw1 as [|? ? Hb2 _]; subst.
+    cbn [base64_encode forallb]. rewrite !Hs by lia. reflexivity.
+  - intros b1 b2 b3 r IH Hw. inversion Hw as [|? ? Hb1 Hw1]; subst. inversion Hw1 as [|? ? Hb2 Hw2]; subst.
+    inversion Hw2 as [|? ? Hb3 Hw3]; subst.
+    cbn [base64_encode forallb]. rewrite !Hs by lia. rewrite (IH Hw3). reflexivity.
+Qed.
+
+Lemma forallb_imp_contains : forall (p : N -> bool) c s, forallb p s = true -> p c = false -> contains c s = false.
+Proof.
+  intros p c s H Hc. unfold contains. induction s as [|a r IH]; [reflexivity|].
+  cbn [forallb existsb] in *. apply andb_prop in H. destruct H as [Ha Hr]. rewrite (IH Hr).
+  destruct (c =? a) eqn:E; [|reflexivity]. apply N.eqb_eq in E. subst a. congruence.
+Qed.
+
+(* the crate's decoder returns the bytes of every unpadded base64url encoding (the form the printer emits) *)
+Theorem b64_roundtrip : forall bs, wf_bytes bs -> base64_decode (base64_encode BASE64URL bs) = Some bs.
+Proof.
+  intros bs Hw. pose proof (encode_chars bs Hw) as Hc. unfold base64_decode.
+  assert (Hasc : all_ascii (base64_encode BASE64URL bs) = true).
+  { unfold all_ascii. clear -Hc. induction (base64_encode BASE64URL bs) as [|a r IH]; [reflexivity|].
+    cbn [forallb] in *. apply andb_prop in Hc. destruct Hc as [Ha Hr]. rewrite (IH Hr). unfold url_char_ok in Ha. lia. }
+  rewrite Hasc. cbn [negb].
+  rewrite (forallb_imp_contains url_char_ok 43 _ Hc eq_refl), (forallb_imp_contains url_char_ok 47 _ Hc eq_refl),
+          (forallb_imp_contains url_char_ok 61 _ Hc eq_refl). cbn [orb andb].
+  rewrite (decode_base_groups _ _ (b64_value_index true) (b64_value_lt true)). apply (groups_encode true bs Hw).
+Qed.
+
+(* and the specification decodes both alphabets' encodings, padded (when needed) or not *)
+Theorem spec_b64_roundtrip : forall url bs, wf_bytes bs ->
+  base64_groups (alphabet_of url) (base64_encode (alphabet_of url) bs) = Some bs.
+Proof. exact groups_encode. Qed.
+
+Theorem spec_b64_decodes_encodings : forall bs, wf_bytes bs ->
+  base64_groups BASE64 (base64_encode BASE64 bs) = Some bs
+  /\ base64_groups BASE64URL (base64_encode BASE64URL bs) = Some bs.
+Proof. intros bs Hw. split; [apply (groups_encode false bs Hw) | apply (groups_encode true bs Hw)]. Qed.
